@@ -40,8 +40,8 @@ Quiescent(snap) == snap.rlen = 0 /\ snap.wlen = 0
 (*            part of acc the implementation is obliged to honour            *)
 (*   within   total live weight has never exceeded max_capacity (C03)        *)
 (*   rec      residents from least to most recently used (C12, C13)          *)
-(*   vis      C07: what contains_key said about each key since the last      *)
-(*            other call at this clock reading (0 unknown, 1 yes, 2 no)      *)
+(*   vis      C07: the keys contains_key has reported present since the last *)
+(*            other call at this clock reading                               *)
 (*   inv      C07: the invalidation call under observation                   *)
 (*   pend     concurrent cache, C03/C04: an insert awaiting its sync()       *)
 (*   growth   concurrent cache, C04: weight added by in-place updates since  *)
@@ -49,13 +49,13 @@ Quiescent(snap) == snap.rlen = 0 /\ snap.wlen = 0
 
 NoLast == [p |-> FALSE, v |-> 0, w |-> 0, t |-> 0, dead |-> FALSE, amb |-> FALSE,
            acc |-> 0, accLo |-> 0]
-NoInv == [on |-> FALSE, targeted |-> {}, pre |-> <<>>, now |-> 0, settled |-> FALSE]
+NoInv == [on |-> FALSE, targeted |-> {}, amb |-> {}, pre |-> {}, now |-> 0, settled |-> FALSE]
 NoPend == [on |-> FALSE, k |-> 0, v |-> 0, w |-> 0, fits |-> FALSE, fresh |-> FALSE,
            keep |-> {}, now |-> 0]
 
 HInit(cfg) ==
     [cfg |-> cfg, last |-> [k \in 1..cfg.nkeys |-> NoLast], within |-> TRUE,
-     rec |-> <<>>, vis |-> [k \in 1..cfg.nkeys |-> 0], visnow |-> 0,
+     rec |-> <<>>, vis |-> {}, visnow |-> 0,
      inv |-> NoInv, pend |-> NoPend, growth |-> 0]
 
 HKeys(hs) == 1..hs.cfg.nkeys
@@ -184,8 +184,11 @@ FitsPhys(hs, pre, e) ==
     \/ SumW(pre.res) - (IF e.k \in KeysIn(pre.res) THEN Ent(pre.res, e.k).w ELSE 0) + e.w
           <= hs.cfg.cap
 
+\* an entry written at clock reading t is live at t unless a zero duration is configured
+LiveAtBirth(hs) == hs.cfg.ttl # 0 /\ hs.cfg.tti # 0
+
 InsertKept(hs, keep, k, v, snap, now) ==
-    /\ k \in KeysIn(snap.res) /\ Ent(snap.res, k).v = v
+    /\ LiveAtBirth(hs) => (k \in KeysIn(snap.res) /\ Ent(snap.res, k).v = v)
     /\ \A j \in keep : (j # k /\ RefLive(hs, j, now)) => j \in KeysIn(snap.res)
 
 Allowed_C03(hs, pre, e) ==
@@ -244,12 +247,11 @@ Allowed_C07(hs, pre, e) ==
     /\ e.ev = "Iter" => \A i \in DOMAIN e.items : ~(hs.last[e.items[i].k].p /\ hs.last[e.items[i].k].dead)
     /\ (e.ev = "Contains" /\ hs.inv.on /\ hs.inv.now = e.now) =>
           /\ e.k \in hs.inv.targeted => e.r = FALSE
-          /\ (hs.inv.settled /\ e.k \notin hs.inv.targeted /\ hs.inv.pre[e.k] = 1) => e.r = TRUE
-          /\ (hs.inv.pre[e.k] = 2 /\ e.k \notin hs.inv.targeted) => e.r = FALSE
+          /\ (hs.inv.settled /\ e.k \notin hs.inv.targeted \cup hs.inv.amb /\ e.k \in hs.inv.pre) => e.r = TRUE
 NT_C07(hs, pre, e) ==
     \/ (e.ev \in {"Get", "Contains"} /\ hs.last[e.k].p /\ hs.last[e.k].dead)
     \/ (e.ev = "Contains" /\ hs.inv.on /\ hs.inv.now = e.now /\
-          (e.k \in hs.inv.targeted \/ hs.inv.pre[e.k] # 0))
+          (e.k \in hs.inv.targeted \/ e.k \in hs.inv.pre))
 
 -----------------------------------------------------------------------------
 (* C08  no internal panic, no corruption of the intrusive lists              *)
@@ -405,14 +407,14 @@ HUpdate(P, hs, pre, e) ==
         within1 == hs.within /\ (e.ev = "Insert" => (hs.cfg.cap = None \/ LiveWeight(h1, e.now) <= hs.cfg.cap))
         \* C07 bookkeeping
         sameNow == hs.visnow = e.now
-        vis0 == IF sameNow THEN hs.vis ELSE [k \in HKeys(hs) |-> 0]
+        vis0 == IF sameNow THEN hs.vis ELSE {}
         vis1 == IF e.ev = "Contains"
-                THEN [vis0 EXCEPT ![e.k] = IF e.r THEN 1 ELSE 2]
+                THEN (IF e.r THEN vis0 \cup {e.k} ELSE vis0 \ {e.k})
                 ELSE IF e.ev = "Iter" THEN vis0
-                ELSE [k \in HKeys(hs) |-> 0]
+                ELSE {}
         isInv == e.ev \in {"Invalidate", "InvalidateAll", "InvalidateIf"}
         inv1 == IF isInv
-                THEN [on |-> TRUE, targeted |-> tg \cup am, pre |-> vis0, now |-> e.now,
+                THEN [on |-> TRUE, targeted |-> tg, amb |-> am, pre |-> vis0, now |-> e.now,
                       \* "nothing else is affected" is only promised when no maintenance is pending
                       settled |-> (~IsSync(hs) \/ (Quiescent(pre) /\ ExcessOf(hs, pre) = 0))]
                 ELSE IF e.ev \in {"Contains", "Iter"} /\ hs.inv.now = e.now THEN hs.inv
